@@ -134,7 +134,61 @@ def run(ck):
     n_m = report_sites(ck, an_m)
     ck.stats["merkle_sites_safe"] = n_m["safe"]
     ck.floor("distinct sites proved safe", n["safe"], 35)
+    guard_rules(ck, prog)
     controls(ck, prog)
+
+
+def guard_rules(ck, prog):
+    """Structural guards of the verifier outside the interpreter's armed scope: each is a necessary condition for `no panic on proof
+    bytes` at a site in perform_verification / the FRI verifier that the interval analysis does not enter."""
+    from ..cfg import must_between, T
+    from ..flow import flow
+    from ..guards import MustGuards
+    from ..ir import callee_name
+    from . import vguards as V
+    ck.rule("G", "structural guards protecting panic sites outside the interpreter's scope (FRI layer count, optional GKR proof, base-field check order)")
+    mg = MustGuards(prog)
+    # (1) the number of FRI layers carried by the proof is compared with the number the options imply before the layers are consumed
+    vc = prog.fn("winter_verifier::channel::VerifierChannel::new")
+    gs = mg.of(vc)
+    m = [g for g in gs if g.fn is vc and g.kind == "switch" and
+         V.match_cmp(g, ("!=",), V.has_callee("FriProof::num_layers"), V.has_callee("FriOptions::num_fri_layers"))]
+    V.require(ck, "G", "VerifierChannel::new:fri-layer-count", m,
+              "reject iff the proof's number of FRI layers differs from the number implied by the options and the LDE domain size "
+              "(the FRI verifier removes one commitment per expected layer: Vec::remove(0) panics on a shorter list)", loc_hint=vc.loc())
+    # (2) a proof component whose presence the proof controls is never unwrapped
+    pv = prog.fn("winter_verifier::perform_verification")
+    g = flow(pv)
+    n_sites = 0
+    for b, t in pv.calls():
+        cn = callee_name(t) or ""
+        if not cn.endswith(("Option::expect", "Option::unwrap", "Result::expect", "Result::unwrap", "Option::unwrap_unchecked")):
+            continue
+        n_sites += 1
+        w = g.walk(ops=[t["args"][0]], at=(b, T), through=lambda tt: False)
+        prods = [pv.term(n[1]) for n in w if n[0] == "c"]
+        bad = [callee_name(p) for p in prods if (callee_name(p) or "").startswith("winter_verifier::channel::VerifierChannel::read_")
+               and (p.get("dest_ty") or "").startswith("core::option::Option")]
+        ck.ob("G", f"perform_verification:unwrap-of:{(callee_name(prods[0]) or '?').split('::')[-1] if prods else '?'}", not bad,
+              "expect/unwrap in perform_verification is not applied to an optional proof component (its absence must be an error, not a panic)",
+              loc=pv.loc(b, T), detail=f"receiver produced by {bad}" if bad else None)
+    ck.floor("expect/unwrap sites examined in perform_verification", n_sites, 2)
+    reads = [t for b, t in pv.calls() if (callee_name(t) or "").endswith("VerifierChannel::read_gkr_proof")]
+    if len(reads) != 1:
+        from ..ir import AnchorError
+        raise AnchorError(f"perform_verification: {len(reads)} reads of the optional GKR proof")
+    # (3) the claimed base field is compared before the context is interpreted in that field
+    vf = prog.fn("winter_verifier::verify")
+    gv = [x for x in mg.of(vf) if x.fn is vf and x.kind == "switch" and "InconsistentBaseField" in x.errs]
+    enc = [(b, T) for b, t in vf.calls() if (callee_name(t) or "").endswith("ToElements::to_elements")
+           and ((t.get("fn") or {}).get("targs") or [""])[0].endswith("proof::context::Context")]
+    if not enc:
+        from ..ir import AnchorError
+        raise AnchorError("verify(): the context is not encoded into field elements")
+    ok = bool(gv) and must_between(vf, None, [(x.block, T) for x in gv], enc)[0]
+    ck.ob("G", "verify:base-field-before-context-encoding", ok,
+          "every path to Context::to_elements (which asserts on the modulus byte length) passes the InconsistentBaseField decision first",
+          loc=vf.loc(enc[0][0], T))
 
 
 def controls(ck, prog):
